@@ -437,6 +437,47 @@ func judge(c SynCase, msgs []git.CommitMessage) pbt.Verdict {
 			}
 		}
 	}
+	// the CLI computes several summaries from one parsed list (`coca git -t -a -b`): a summary
+	// must not change what the next one sees. All of them again, on one shared list.
+	shared := copyMessages(msgs)
+	var team2, team3 []git.TeamSummary
+	var ages2 []git.ProjectInfo
+	var basic2 *git.GitSummary
+	if p := pbt.Call(func() {
+		team2 = git.GetTeamSummary(shared)
+		ages2 = git.CalculateCodeAge(shared)
+		_ = git.BuildChangeMap(shared)
+		_ = git.GetTopAuthors(shared)
+		team3 = git.GetTeamSummary(shared)
+		basic2 = git.BasicSummary(shared)
+	}); p != "" {
+		return fail("summaries on one shared commit list panicked: %s", p)
+	}
+	canonTeam := func(ts []git.TeamSummary) string {
+		var l []string
+		for _, t := range ts {
+			l = append(l, fmt.Sprintf("%q revisions=%d authors=%d", t.EntityName, t.RevsCount, t.AuthorCount))
+		}
+		sort.Strings(l)
+		return strings.Join(l, "\n")
+	}
+	canonAges := func(as []git.ProjectInfo) string {
+		var l []string
+		for _, a := range as {
+			l = append(l, fmt.Sprintf("%q first=%s", a.EntityName, a.Age.Format("2006-01-02")))
+		}
+		sort.Strings(l)
+		return strings.Join(l, "\n")
+	}
+	if canonTeam(team2) != canonTeam(team) || canonTeam(team3) != canonTeam(team) {
+		return fail("team summary computed again on a commit list that other summaries have already read differs from the first one:\nfirst:\n%s\nafter code age / change map / top authors:\n%s", canonTeam(team), canonTeam(team3))
+	}
+	if canonAges(ages2) != canonAges(ages) {
+		return fail("code age computed after the team summary on the same commit list differs:\nalone:\n%s\nafter team summary:\n%s", canonAges(ages), canonAges(ages2))
+	}
+	if basic2 == nil || *basic2 != *basic {
+		return fail("basic summary computed last on a shared commit list is %+v, computed alone it is %+v", basic2, basic)
+	}
 	add(multiRev, "file_with_revisions>=2")
 	add(multiAuthor, "file_with_authors>=2")
 	add(chain, "rename_chain")
